@@ -7,6 +7,8 @@ import (
 	"encoding/json"
 	"flag"
 	"fmt"
+	"io"
+	"net"
 	"net/http"
 	"net/http/httptest"
 	"os"
@@ -43,6 +45,7 @@ func cmdAPIAuth(args []string) error {
 	seed := fs.Uint64("seed", 1, "seed")
 	nc := fs.Int("configs", 60, "configurations")
 	nreq := fs.Int("requests", 40, "requests per configuration")
+	nlive := fs.Int("live", 4, "configurations served by listeners started through the real startServers (over TCP), each reloaded once")
 	outPath := fs.String("out", "-", "output")
 	fs.Parse(args)
 	w := os.Stdout
@@ -388,6 +391,97 @@ func cmdAPIAuth(args []string) error {
 			}
 		}
 	}
-	_ = http.StatusOK
+	// listeners started by run()'s own startServers, asked over TCP before and after a reload that rotates every token: what
+	// answers is the wiring of the real binary, not the harness's copy of it
+	for c := 0; c < *nlive; c++ {
+		ports := make([]int, 3)
+		for i := range ports {
+			ln, err := net.Listen("tcp", "127.0.0.1:0")
+			if err != nil {
+				return err
+			}
+			ports[i] = ln.Addr().(*net.TCPAddr).Port
+			ln.Close()
+		}
+		perRoute := r.chance(60)
+		gen := func(tag string) (string, []string, []string, []jpullroute) {
+			g, a, rt := []string{"liveG" + tag}, []string{"liveA" + tag}, []string{}
+			if perRoute {
+				rt = []string{"liveR" + tag}
+			}
+			var b strings.Builder
+			fmt.Fprintf(&b, "ingress {\n  listen 127.0.0.1:%d\n}\npull_api {\n  listen 127.0.0.1:%d\n  auth token raw:%s\n}\nadmin_api {\n  listen 127.0.0.1:%d\n  auth token raw:%s\n}\n/r0 {\n  pull {\n    path /pull/p0\n",
+				ports[0], ports[1], g[0], ports[2], a[0])
+			for _, t := range rt {
+				fmt.Fprintf(&b, "    auth token raw:%s\n", t)
+			}
+			b.WriteString("  }\n}\n")
+			return b.String(), g, a, []jpullroute{{Route: "/r0", Endpoint: "/pull/p0", Tokens: rt}}
+		}
+		textA, gA, aA, rA := gen("old")
+		textB, gB, aB, rB := gen("new")
+		compiledA, err := compileText(textA)
+		if err != nil {
+			emit(map[string]interface{}{"k": "cfgerror", "stage": "live", "err": err.Error(), "text": textA})
+			continue
+		}
+		store := queue.NewMemoryStore()
+		live, err := app.VerifStartLive(compiledA, store)
+		if err != nil {
+			emit(map[string]interface{}{"k": "cfgerror", "stage": "live-start", "err": err.Error(), "text": textA})
+			continue
+		}
+		client := &http.Client{Timeout: 5 * time.Second}
+		all := append(append(append(append(append([]string{}, gA...), aA...), gB...), aB...), "nobody")
+		all = append(append(all, rA[0].Tokens...), rB[0].Tokens...)
+		ask := func(global, admin []string, routes []jpullroute, phase string) {
+			base := map[string]interface{}{"global": global, "routes": routes, "admin": admin, "cfg": 100000 + c, "reloaded": phase == "after", "live": true}
+			for _, t := range append([]string{""}, all...) {
+				_ = store.Enqueue(queue.Envelope{ID: fmt.Sprintf("live-%d-%s-%s", c, phase, t), Route: "/r0", Target: "pull", Payload: []byte("x")})
+				hv := ""
+				if t != "" {
+					hv = "Bearer " + t
+				}
+				for _, which := range []string{"pull", "admin"} {
+					before := snapKey(store)
+					var req *http.Request
+					if which == "pull" {
+						req, _ = http.NewRequest("POST", fmt.Sprintf("http://127.0.0.1:%d/pull/p0/dequeue", ports[1]), strings.NewReader(`{"batch":1,"lease_ttl":"1s"}`))
+					} else {
+						req, _ = http.NewRequest("GET", fmt.Sprintf("http://127.0.0.1:%d/messages", ports[2]), nil)
+					}
+					if hv != "" {
+						req.Header.Set("Authorization", hv)
+					}
+					resp, err := client.Do(req)
+					if err != nil {
+						emit(map[string]interface{}{"k": "cfgerror", "stage": "live-request", "err": err.Error(), "text": textA})
+						continue
+					}
+					io.Copy(io.Discard, resp.Body)
+					resp.Body.Close()
+					rec := map[string]interface{}{"status": resp.StatusCode, "auth": hv, "changed": snapKey(store) != before}
+					if which == "pull" {
+						rec["k"], rec["rawPath"], rec["cleanPath"], rec["method"] = "pull", "/pull/p0/dequeue", "/pull/p0/dequeue", "POST"
+					} else {
+						rec["k"], rec["path"] = "admin", "/messages"
+					}
+					for k, v := range base {
+						rec[k] = v
+					}
+					emit(rec)
+				}
+			}
+		}
+		ask(gA, aA, rA, "before")
+		cfgPath := filepath.Join(dir, fmt.Sprintf("Hookaidofile.live%d", c))
+		_ = os.WriteFile(cfgPath, []byte(textB), 0o600)
+		if !live.Reload(cfgPath) {
+			emit(map[string]interface{}{"k": "cfgerror", "stage": "live-reload", "err": "a reload that only rotates tokens was refused", "text": textB})
+		} else {
+			ask(gB, aB, rB, "after")
+		}
+		live.Stop()
+	}
 	return nil
 }
